@@ -703,6 +703,14 @@ func (a *Authenticator) handleSessionResumption(ctx context.Context, sessionID s
 	if ok && (entry.KeyInfo() == nil || len(entry.KeyInfo().Data) == 0) {
 		ok = false
 	}
+	// The same holds for a key filed under a cipher cedar cannot apply (a legacy
+	// cipher name, or none at all when a method yielded a secret without a
+	// negotiated cipher): setupStreamEncryption would leave the stream in
+	// plaintext, so the "resumed" connection would carry the session's identity
+	// with nothing proving possession of the key.
+	if ok && !hasUsableKey(entry) {
+		ok = false
+	}
 	if !ok {
 		slog.Info(fmt.Sprintf("🔐 SERVER: Session %s not found or expired", redactSessionID(sessionID)), "destination", "cedar")
 
